@@ -3,6 +3,7 @@ package main
 import (
 	"bytes"
 	"fmt"
+	"github.com/golang/snappy"
 	"math/rand"
 	"sort"
 	"strconv"
@@ -120,6 +121,11 @@ func c18Iterations(r *ev.Run, race bool, iters int, seed int64) {
 			keys := make([]string, nk)
 			for k := range keys {
 				keys[k] = fmt.Sprintf("n%d.k%d.%x", ni, k, rnd.Intn(1<<20))
+				if k == 0 && it%3 == 0 {
+					// a key NAME that looks like a compressed value (documented header + a decodable stream): names are
+					// returned as stored, whatever they look like
+					keys[k] = string(looksCompressed(fmt.Sprintf("trap-n%d-%d", ni, it)))
+				}
 				allKeys[keys[k]] = true
 			}
 			np := 1 + rnd.Intn(30)
@@ -386,4 +392,14 @@ func scriptSummary(scripts [][]scanPage) []string {
 		out = append(out, s)
 	}
 	return out
+}
+
+// looksCompressed returns the documented compression header followed by a snappy stream of the given text.
+func looksCompressed(text string) []byte {
+	var bb bytes.Buffer
+	bb.Write(cpsHeader)
+	w := snappy.NewBufferedWriter(&bb)
+	w.Write([]byte(text))
+	w.Close()
+	return bb.Bytes()
 }
